@@ -145,6 +145,7 @@ func (cc *checkCtx) gather() {
 		fn  *ssa.Function
 	}
 	var jobs []job
+	partial := map[string]bool{}
 	for _, k := range keys {
 		fn, ok := e.funcs[k]
 		if !ok || fn.Blocks == nil {
@@ -161,7 +162,9 @@ func (cc *checkCtx) gather() {
 			continue
 		}
 		if e.contracts[k].Trusted != "" {
-			continue
+			// a trusted contract may still carry clauses tagged for this property: those are verified against the body
+			// (the untagged part and the frame stay assumed)
+			partial[k] = true
 		}
 		jobs = append(jobs, job{k, fn})
 	}
@@ -190,10 +193,13 @@ func (cc *checkCtx) gather() {
 				if otherPropOnly(o.Tags, cc.prop) {
 					continue
 				}
+				if partial[jobs[i].key] && !hasPropTag(o.Tags, cc.prop) {
+					continue
+				}
 				if o.Kind == "safe" {
 					// safety obligations of a `safe` contract belong to the properties the contract is tagged for
 					c := e.contracts[jobs[i].key]
-					if !(c.SafeOn && contractHasProp(c, cc.prop)) && cc.prop != "C13" {
+					if !(c.SafeOn && safeBelongs(c, cc.prop)) && cc.prop != "C13" {
 						continue
 					}
 				}
@@ -668,3 +674,16 @@ func (cc *checkCtx) writeReplay(o *Obligation, why string, rep *ReplayResult) st
 }
 
 func cmdLock(args []string) int { return 2 }
+
+// safeBelongs: do the safety obligations of a `safe` contract count for property prop
+func safeBelongs(c *Contract, prop string) bool {
+	if len(c.SafeProps) > 0 {
+		for _, p := range c.SafeProps {
+			if p == prop {
+				return true
+			}
+		}
+		return false
+	}
+	return contractHasProp(c, prop)
+}
